@@ -190,6 +190,7 @@ func (e *Engine) propagateEqs(assumps []*Term, goal *Term) ([]*Term, *Term, map[
 			break
 		}
 		var out []*Term
+		shared := map[*Term]*Term{} // memo for every rebuild of this round that uses the whole of sub
 		for _, a := range assumps {
 			if a.Op == ONot && a.Args[0].Op == OEq && a.Args[0].Args[0].S.K == SBV && a.Args[0].Args[0].S.W == RgnW {
 				// a region disequality is kept for the solver as it stands: rebuilding it would
@@ -198,7 +199,9 @@ func (e *Engine) propagateEqs(assumps []*Term, goal *Term) ([]*Term, *Term, map[
 				continue
 			}
 			use := sub
+			memo := shared
 			if keys, ok := def[a]; ok {
+				memo = map[*Term]*Term{}
 				// a defining assumption is rewritten by all rules but its own
 				use = make(map[*Term]*Term, len(sub))
 				for k, v := range sub {
@@ -209,7 +212,7 @@ func (e *Engine) propagateEqs(assumps []*Term, goal *Term) ([]*Term, *Term, map[
 				}
 				delete(use, a)
 			}
-			n := c.Rebuild(a, use)
+			n := c.RebuildMemo(a, use, memo)
 			if n.IsTrue() {
 				continue
 			}
@@ -217,7 +220,7 @@ func (e *Engine) propagateEqs(assumps []*Term, goal *Term) ([]*Term, *Term, map[
 		}
 		assumps = out
 		if goal != nil {
-			goal = c.Rebuild(goal, sub)
+			goal = c.RebuildMemo(goal, sub, shared)
 		}
 		for k, v := range sub {
 			all[k] = v
@@ -281,8 +284,12 @@ type SolveStats struct {
 }
 
 func runSolver(cfg SolverCfg, file string, timeout int) (verdict, out string, secs float64) {
+	return runSolverCtx(context.Background(), cfg, file, timeout)
+}
+
+func runSolverCtx(parent context.Context, cfg SolverCfg, file string, timeout int) (verdict, out string, secs float64) {
 	args := cfg.Args(file, timeout)
-	ctx, cancel := context.WithTimeout(context.Background(), time.Duration(timeout+2)*time.Second)
+	ctx, cancel := context.WithTimeout(parent, time.Duration(timeout+2)*time.Second)
 	defer cancel()
 	cmd := exec.CommandContext(ctx, args[0], args[1:]...)
 	var buf bytes.Buffer
@@ -300,6 +307,62 @@ func runSolver(cfg SolverCfg, file string, timeout int) (verdict, out string, se
 		verdict = "unknown"
 	}
 	return
+}
+
+// raceStagger is how long the first solver runs alone before the others are started beside it.
+const raceStagger = 2 * time.Second
+
+// raceSolvers runs the portfolio on one query: the first solver starts at once, the others join after
+// raceStagger if it has not answered; the first decisive answer (sat / unsat) wins and the rest are
+// stopped. "unknown" only if every solver gave up.
+func raceSolvers(file string, timeout int) (verdict, out, name string, secs float64) {
+	ctx, cancel := context.WithCancel(context.Background())
+	defer cancel()
+	type res struct {
+		v, out, name string
+	}
+	t0 := time.Now()
+	ch := make(chan res, len(Solvers))
+	start := func(s SolverCfg) {
+		go func() {
+			v, out, _ := runSolverCtx(ctx, s, file, timeout)
+			ch <- res{v, out, s.Name}
+		}()
+	}
+	start(Solvers[0])
+	running, started := 1, false
+	timer := time.NewTimer(raceStagger)
+	defer timer.Stop()
+	verdict, name = "unknown", Solvers[0].Name
+	for running > 0 {
+		select {
+		case <-timer.C:
+			if !started {
+				started = true
+				for _, s := range Solvers[1:] {
+					start(s)
+					running++
+				}
+			}
+		case r := <-ch:
+			running--
+			if r.v != "unknown" {
+				return r.v, r.out, r.name, time.Since(t0).Seconds()
+			}
+			if r.name == Solvers[0].Name {
+				out = r.out
+			}
+			if !started {
+				// the first solver gave up early: let the others try
+				started = true
+				for _, s := range Solvers[1:] {
+					start(s)
+					running++
+				}
+			}
+		}
+	}
+	return verdict, out, name, time.Since(t0).Seconds()
 }
 
 // Solve discharges one obligation. Verdict semantics: for ordinary obligations "unsat" = proved,
@@ -325,12 +388,13 @@ func (e *Engine) Solve(o *Oblig, opts SolveOpts, stats *SolveStats, prep *sync.M
 			facts := o.Facts
 			if len(sub) > 0 || len(e.C.localDistinct) > 0 {
 				facts = nil
+				fmemo := map[*Term]*Term{}
 				for _, f := range o.Facts {
-					nf := &QFact{Bound: f.Bound, Body: e.C.Rebuild(f.Body, sub)}
+					nf := &QFact{Bound: f.Bound, Body: e.C.RebuildMemo(f.Body, sub, fmemo)}
 					for _, tg := range f.Trig {
-						nt := Trigger{Arr: e.C.Rebuild(tg.Arr, sub), Coef: tg.Coef}
+						nt := Trigger{Arr: e.C.RebuildMemo(tg.Arr, sub, fmemo), Coef: tg.Coef}
 						if tg.Base != nil {
-							nt.Base = e.C.Rebuild(tg.Base, sub)
+							nt.Base = e.C.RebuildMemo(tg.Base, sub, fmemo)
 						}
 						nf.Trig = append(nf.Trig, nt)
 					}
@@ -413,7 +477,14 @@ func (e *Engine) Solve(o *Oblig, opts SolveOpts, stats *SolveStats, prep *sync.M
 	if sp := e.Specs[o.Fn]; sp != nil && sp.Timeout > timeout {
 		timeout = sp.Timeout
 	}
-	v, out, secs := runSolver(Solvers[0], file, timeout)
+	var v, out string
+	var secs float64
+	winner := Solvers[0].Name
+	if byInterval {
+		v, out, secs = runSolver(Solvers[0], file, timeout)
+	} else {
+		v, out, winner, secs = raceSolvers(file, timeout)
+	}
 	if byInterval {
 		// cross-check of the interval prover: only a model refutes it; unknown leaves its decision standing
 		stats.mu.Lock()
@@ -438,45 +509,27 @@ func (e *Engine) Solve(o *Oblig, opts SolveOpts, stats *SolveStats, prep *sync.M
 		o.SMTFile = ""
 		return
 	}
-	o.Solver, o.Secs = Solvers[0].Name, secs
+	o.Solver, o.Secs = winner, secs
 	if v == "unsat" && opts.Cross && !o.Cover {
 		// thorough tier: a second solver must not contradict the first
-		v2, out2, secs2 := runSolver(Solvers[1], file, timeout)
+		second := Solvers[1]
+		if winner == second.Name {
+			second = Solvers[0]
+		}
+		v2, out2, secs2 := runSolver(second, file, timeout)
 		o.Secs += secs2
 		stats.mu.Lock()
-		stats.Secs[Solvers[1].Name] += secs2
+		stats.Secs[second.Name] += secs2
 		if v2 == "unsat" {
 			stats.PerSolver["cross-checked"]++
 		}
 		stats.mu.Unlock()
 		if v2 == "sat" {
-			v, out = "sat", "DISAGREEMENT: "+Solvers[0].Name+" says unsat, "+Solvers[1].Name+" found a model\n"+out2
-			o.Solver = Solvers[0].Name + " vs " + Solvers[1].Name
+			v, out = "sat", "DISAGREEMENT: "+winner+" says unsat, "+second.Name+" found a model\n"+out2
+			o.Solver = winner + " vs " + second.Name
 			stats.mu.Lock()
 			stats.PerSolver["disagreement"]++
 			stats.mu.Unlock()
-		}
-	}
-	if v == "unknown" {
-		// race the other two
-		type res struct {
-			v, out, name string
-			secs         float64
-		}
-		ch := make(chan res, 2)
-		for _, s := range Solvers[1:] {
-			s := s
-			go func() {
-				v, out, secs := runSolver(s, file, timeout)
-				ch <- res{v, out, s.Name, secs}
-			}()
-		}
-		for i := 0; i < 2; i++ {
-			r := <-ch
-			o.Secs += r.secs
-			if r.v != "unknown" && v == "unknown" {
-				v, out, o.Solver = r.v, r.out, r.name
-			}
 		}
 	}
 	o.Verdict = v
